@@ -2,4 +2,5 @@ import Cgm.Lemmas.AuditCmd
 import Cgm.E2E.C15
 import Cgm.E2E.C15b
 import Cgm.E2E.C15c
+import Cgm.E2E.C15g
 #audit_namespace Cg.E2E.C15
